@@ -27,7 +27,7 @@ TRACE_CFG = 'TRACE_Commands.cfg'
 VERSIONS = [-1, 3, 7, 8, 9, 10]
 
 # argument kinds per command, positional (f float, i int, b bool, o optional float, m fixed-point
-# source, q quaternion component, l list of ints) -- the same order as CommandsProps.Layout uses
+# source, q quaternion component, l list of ints, r raw bytes) -- the same order as CommandsProps.Layout uses
 KINDS = {
     'setpoint': 'fffi', 'notify_stop': 'i', 'stop_setpoint': '', 'velocity_world': 'ffff',
     'zdistance': 'ffff', 'hover': 'ffff', 'full_state': 'mmmmmmmmmqqqqmmm', 'position': 'ffff',
@@ -35,7 +35,7 @@ KINDS = {
     'hl_goto': 'fffffbbi', 'hl_spiral': 'fffffbbi', 'hl_start_traj': 'ifbbi', 'hl_define_traj': 'iiii',
     'extpos': 'fff', 'loc_extpos': 'fff', 'extpose': 'fffffff', 'loc_extpose': 'fffffff',
     'emergency_stop': '', 'emergency_watchdog': '', 'lh_persist': 'll', 'arm': 'b', 'crash_recovery': '',
-    'lpp_position': 'ifff', 'lpp_reboot': 'ii', 'lpp_mode': 'ii',
+    'lpp_position': 'ifff', 'lpp_raw': 'ir', 'lpp_reboot': 'ii', 'lpp_mode': 'ii',
 }
 CMDS = sorted(KINDS)
 
@@ -94,6 +94,8 @@ def _call(cf, cmd, a):
         return cf.platform.send_arming_request(a[0])
     if cmd == 'crash_recovery':
         return cf.platform.send_crash_recovery_request()
+    if cmd == 'lpp_raw':
+        return loc.send_short_lpp_packet(a[0], bytes(a[1]))
     from lpslib.lopoanchor import LoPoAnchor
     if cmd == 'lpp_position':
         return LoPoAnchor(cf).set_position(a[0], (a[1], a[2], a[3]))
@@ -186,6 +188,8 @@ def arg_records(cmd, a):
             out.append(m_rec(a[i]))
         elif k == 'l':
             out.append({'k': 'l', 'v': [int(v) for v in a[i]]})
+        elif k == 'r':
+            out.append({'k': 'r', 'v': [int(v) for v in a[i]]})
         elif k == 'q':
             qs = q_recs(a[i:i + 4])
             if qs is None:
@@ -218,7 +222,7 @@ def py_from_record(r):
         return r['lo'] / 1000.0 if r['ex'] else (r['lo'] + 0.5) / 1000.0
     if k == 'q':
         return float(r['n'])
-    if k == 'l':
+    if k in ('l', 'r'):
         return list(r['v'])
     raise common.MachineryError('bad arg record %r' % (r,))
 
@@ -506,6 +510,16 @@ def mutant(name):
                                           ascent, duration_s))
         patch(hl.HighLevelCommander, 'spiral', spiral)
         del orig
+    elif name == 'size_check_removed':
+        import cflib.crazyflie as cfm
+
+        def send_packet(self, pk, expected_reply=(), resend=False, timeout=0.2):
+            self._send_lock.acquire()
+            if self.link is not None:
+                self.link.send_packet(pk)
+                self.packet_sent.call(pk)
+            self._send_lock.release()
+        patch(cfm.Crazyflie, 'send_packet', send_packet)
     elif name == 'version_off_by_one':
         import cflib.crazyflie.platformservice as ps
         orig_cb = ps.PlatformService._platform_callback
@@ -527,7 +541,7 @@ def mutant(name):
 MUTANTS = ['lost_pitch_flip', 'thrust_clipped', 'xmode_wrong_rotation', 'legacy_threshold_lt8',
            'legacy_yaw_not_negated', 'wrong_type_code', 'goto_flags_swapped', 'takeoff_fields_swapped',
            'wrong_width', 'wrong_port', 'wrong_channel', 'header_port_masked', 'quat_component_order',
-           'fixed_point_scale', 'int16_wrapped', 'spiral_below_v8_sent', 'version_off_by_one']
+           'fixed_point_scale', 'int16_wrapped', 'spiral_below_v8_sent', 'version_off_by_one', 'size_check_removed']
 
 
 # --------------------------------------------------------------------------- scenario sources
@@ -595,6 +609,9 @@ def rnd_arg(rng, cmd, i, k):
         if r < 0.7:
             return rng.randint(-40, 40) * 0.125 * 8
         return rng.choice(MILLI)
+    if k == 'r':
+        n = rng.choice([0, 1, 2, 13, 27, 28, 28, 29, 30, 31, 64, rng.randint(0, 40)])
+        return [rng.randrange(256) for _ in range(n)]
     if k == 'l':
         r = rng.random()
         if r < 0.6:
@@ -702,6 +719,8 @@ def enumerated_calls(tier):
                             base.append(False)
                         elif k == 'l':
                             base.append(LISTS[(r + i) % len(LISTS)])
+                        elif k == 'r':
+                            base.append([(7 * j + r) % 256 for j in range(1, 13)])
                         i += 1
                     if cmd == 'setpoint' and xm:
                         base[0] = [0.0, 1.0, -2.5, 100.5, 0.125, -128.0, 45.0, 30.0][r % 8]
@@ -731,6 +750,9 @@ def enumerated_calls(tier):
                     calls.append((9, False, call_step(cmd, [g, c])))
             for b in range(16):
                 calls.append((9, False, call_step(cmd, [[b], [15 - b]])))
+        if cmd == 'lpp_raw':
+            for n in range(0, 41):
+                calls.append((9, False, call_step(cmd, [n % 256, [(3 * j + n) % 256 for j in range(n)]])))
         if cmd in ('hl_stop', 'hl_group_mask'):
             for n in range(256):
                 calls.append((9, False, call_step(cmd, [n])))
@@ -748,6 +770,23 @@ def enumerated_calls(tier):
         for xm in (False, True):
             calls.append((9, xm, call_step('setpoint', [1.0, -2.5, 0.5, t])))
     return calls
+
+
+def sensitivity_scenarios(ecalls, rng):
+    """A fixed slice of the enumeration for the mutant runs: every command on both sides of the
+    version switches, x-mode pairs, thrust and payload-size boundaries, all headers."""
+    cnt, keep = {}, []
+    for (v, x, st) in ecalls:
+        cmd = st[1]
+        if v not in (7, 8, 9):
+            continue
+        if cmd == 'lh_persist' and any(len(set(dec(a))) != len(dec(a)) for a in st[2]):
+            continue            # the unchanged code already fails these
+        key = (cmd, v, x)
+        cnt[key] = cnt.get(key, 0) + 1
+        if cnt[key] <= (80 if cmd == 'lpp_raw' else 45 if cmd == 'setpoint' else 10):
+            keep.append((v, x, st))
+    return chunked(keep, rng) + [header_steps()]
 
 
 def header_steps():
@@ -779,15 +818,21 @@ def calls_from_graph(g):
         if last['kind'] == 'cmd':
             a = [py_from_record(r) for r in last['args']]
             exp = {'out': last['out'], 'pks': [{'h': p['h'], 'data': list(p['data'])} for p in last['pks']]}
-            out.append((last['ver'], last['xmode'], call_step(last['cmd'], _regroup(last['cmd'], a)), exp,
+            out.append((last['ver'], last['xmode'], call_step(last['cmd'], a), exp,
                         [_plain(r) for r in last['args']]))
         elif last['kind'] == 'hdr':
             out.append((st['ver'], st['xmode'], ['hdr', 'attrs', last['port'], last['chan']], {'h': last['h']}, None))
     return out
 
 
-def _regroup(cmd, a):
-    return a
+def _by_cmd(events):
+    d = {}
+    for e in events:
+        key = e.get('cmd', e['e'])
+        if key == 'lh_persist':
+            key += ':repeated' if any(len(set(r['v'])) != len(r['v']) for r in e['args']) else ':distinct'
+        d[key] = d.get(key, 0) + 1
+    return d
 
 
 def _plain(r):
@@ -919,8 +964,8 @@ def report_violations(out, bad):
 def main(tier, seed, replay=None):
     out = common.Outcome('C08', tier, seed)
     rng = random.Random(seed)
-    warnings.filterwarnings('ignore')          # the code under test announces legacy packet types
     vsched.load_cflib()
+    warnings.filterwarnings('ignore')          # the code under test announces legacy packet types (cflib turns them on)
     out.assumptions = [
         'wire layouts: tools/crtp-dissector.lua (HL commander structs, port/channel map), Localization._incoming, '
         'docs/user-guides/python_api.md, and the firmware as remembered for the generic setpoint types, '
@@ -955,7 +1000,7 @@ def main(tier, seed, replay=None):
     # 2. spec -> code: every call state of the model-checked graph driven through the real API
     rg, g = tlc.dump_graph('MC_Commands.tla', 'MC_Commands_quick.cfg', timeout=1200)
     gcalls = calls_from_graph(g)
-    rs, behs = tlc.simulate('MC_Commands.tla', 'SIM_Commands.cfg', num=(60 if tier == 'quick' else 600), depth=24,
+    rs, behs = tlc.simulate('MC_Commands.tla', 'SIM_Commands.cfg', num=(60 if tier == 'quick' else 3000), depth=24,
                             seed=seed % 100000, timeout=1800)
     out.add_tlc('SIM_Commands.cfg (-simulate)', rs)
     sim_scs, sim_exp = [], []
@@ -996,6 +1041,7 @@ def main(tier, seed, replay=None):
     out.conformance['spec_to_code'] = {
         'graph_states_driven': len(gcalls), 'graph_matched': ok1,
         'simulated_behaviours': len(sim_scs), 'simulated_steps': n2, 'simulated_matched': ok2,
+        'mismatches_by_command': _by_cmd([e for (e, _x) in badg + bads]),
         'first_mismatches': [{'cmd': e.get('cmd'), 'got': {'out': e.get('out'), 'pks': e.get('pks'), 'h': e.get('h')},
                               'spec': x} for (e, x) in (badg + bads)[:3]]}
 
@@ -1009,7 +1055,15 @@ def main(tier, seed, replay=None):
     all_traces = g_traces + sim_traces + e_traces + h_traces + r_traces
     bad, drift = judge(out, all_traces, 'real code')
     ncalls = sum(1 for t in all_traces for e in t['ev'] if e['e'] in ('call', 'hdr'))
+    dclass = {}
+    for (t, at) in drift:
+        e = t['ev'][at - 1]
+        key = e.get('cmd', e['e'])
+        if key == 'lh_persist':
+            key += ':repeated' if any(len(set(r['v'])) != len(r['v']) for r in e['args']) else ':distinct'
+        dclass[key] = dclass.get(key, 0) + 1
     out.conformance['code_to_spec'] = {'traces': len(all_traces), 'events': ncalls,
+                                       'first_unexplained_event_by_command': dclass,
                                        'traces_explained_by_design_spec': len(all_traces) - len(drift) - len(bad),
                                        'first_drift': [{'event': {k: v for k, v in t['ev'][at - 1].items() if k != 'args'},
                                                         'python_args': repr([dec(x) for x in t['steps'][at - 1][2]])
@@ -1042,8 +1096,7 @@ def main(tier, seed, replay=None):
     # 4. sensitivity: in-memory mutants must be rejected by the monitor (one TLC batch run for all
     #    of them); scenarios the unchanged code already fails are left out
     bad_ids = {id(t) for (t, _c, _a, _f) in bad}
-    clean = [t['steps'] for t in e_traces + h_traces + r_traces[:60] if id(t) not in bad_ids]
-    sub = clean[::max(1, len(clean) // (100 if tier == 'quick' else 300))]
+    sub = sensitivity_scenarios(enumerated_calls('quick'), rng)       # the same slice in both tiers
     sens = []
     for name in MUTANTS:
         with mutant(name):
